@@ -5,6 +5,7 @@ from .. import hgen
 from ..hbase import STUBS
 from ..hlib import c02 as L
 from .common import BASE_ASSUMPTIONS, ROOT, Cond, Spec
+from ..runner import innermost as U
 
 
 def build(tier):
@@ -48,7 +49,7 @@ def build(tier):
     S = aioftp.Server
     return Spec(
         pid="C02", source=src, conds=conds,
-        functions_encoded=[S.get_paths, aioftp.PathConditions.__call__, aioftp.PathPermissions.__call__, S.dispatcher, S.cwd.__wrapped__.__wrapped__.__wrapped__, S.pwd.__wrapped__],
+        functions_encoded=[S.get_paths, aioftp.PathConditions.__call__, aioftp.PathPermissions.__call__, S.dispatcher, U(S.cwd), U(S.pwd)],
         bounds={
             "character level": f"path = any string of length 1..{n} over the alphabet {list(alph)} (symbolic string, partitioned by first character), cwd in {L.CWDS[:2 if q else 4]}, base flavours {[L.BASES[b] for b in ((0, 1) if q else (0, 1, 2, 3))]}",
             "segment level": f"optional lead in {L.LEADS[:3 if q else 4]} + 1..{nseg} segments from {L.SEGS[:ns]}; cwd as above; base flavours {L.BASES}",
